@@ -132,6 +132,21 @@ class IdentityFilter:
         return np.array(x, copy=True)
 
 
+def oracle_weights(ctx, fr, cj):
+    """default weights of any frame (complete or not): 1 where the reciprocal pair is recorded, 2 otherwise"""
+    from arim import ut
+
+    if not fr.numtimetraces:
+        return
+    tx, rx = [int(v) for v in fr.tx], [int(v) for v in fr.rx]
+    ps = set(zip(tx, rx))
+    want = [1 if (b, a) in ps else 2 for a, b in zip(tx, rx)]
+    got = [float(v) for v in ut.default_timetrace_weights(fr.tx, fr.rx)]
+    if got != [float(v) for v in want]:
+        ctx.violate(f"default timetrace weights {got} are not 1 where the reciprocal pair is recorded and 2 otherwise ({want}) for tx={tx} rx={rx}",
+                    cj, {"kind": "weights"})
+
+
 def oracle_op(ctx, before, after, op, cj):
     """the property statement for one operation, on the implementation's objects"""
     b_pairs = list(zip(map(int, before.tx), map(int, before.rx)))
@@ -175,6 +190,7 @@ def run_history(ctx, numel, frame, ops, answer=None, rng=None):
     states = []
     s, ok = state_of(fr)
     states.append(s)
+    oracle_weights(ctx, fr, cj)
     nops = int(rng.integers(1, 6)) if ops is None else len(ops)
     done = []
     for k in range(nops):
@@ -206,6 +222,7 @@ def run_history(ctx, numel, frame, ops, answer=None, rng=None):
         if not ok:
             ctx.violate("timetrace samples got mixed between timetraces", cj, {"kind": "payload"})
         oracle_op(ctx, before, fr, op, cj)
+        oracle_weights(ctx, fr, cj)
         if fr.numtimetraces == 0:
             break
     return done, states, cj
